@@ -260,6 +260,16 @@ fn other_collections(g: &mut Xo, rep: &mut Report) {
     let k = 1 + g.usize_below(n + 2);
     let tk = if k > n { Some("TournamentSizeError") } else { None };
     let tour = Tournament::new(std::num::NonZeroUsize::new(k).unwrap());
+    // the population view of a collection: size and emptiness are those of the collection
+    {
+        use ec_core::population::Population;
+        let dq: VecDeque<IndS> = base.iter().cloned().collect();
+        let bx: Box<[IndS]> = base.clone().into_boxed_slice();
+        rep.eval();
+        if Population::size(&base) != n || Population::is_empty(&base) != (n == 0) || Population::size(&dq) != n || Population::is_empty(&dq) != (n == 0) || Population::size(&bx) != n || Population::is_empty(&bx) != (n == 0) {
+            rep.violation("C06/population-size-or-emptiness", || json!({"collection_len": n, "Vec": [Population::size(&base) as u64, u64::from(Population::is_empty(&base))], "VecDeque": [Population::size(&dq) as u64, u64::from(Population::is_empty(&dq))]}));
+        }
+    }
     // iterable collections
     let dq: VecDeque<IndS> = base.iter().cloned().collect();
     let m: Vec<*const IndS> = dq.iter().map(std::ptr::from_ref).collect();
@@ -304,6 +314,37 @@ fn other_collections(g: &mut Xo, rep: &mut Report) {
     array!(4);
     array!(5);
     array!(6);
+}
+
+/// The dynamic list takes `usize` weights: totals beyond `usize::MAX` must surface as an error
+/// (or a member), never as a panic - also when such a list is nested in another one.
+fn dyn_weight_extremes(g: &mut Xo, rep: &mut Report) {
+    use ec_core::operator::selector::dyn_weighted::DynWeighted;
+    let n = g.usize_below(5);
+    let pop = gen_population(g, n, 2);
+    let weight_sets: [&[usize]; 6] = [&[usize::MAX, 1], &[usize::MAX, usize::MAX], &[usize::MAX / 2 + 1, usize::MAX / 2 + 1], &[usize::MAX, 0], &[1, usize::MAX - 1, 1], &[0, usize::MAX, 0, 7]];
+    for ws in weight_sets {
+        for nested in [false, true] {
+            let mut d: DynWeighted<Pop> = DynWeighted::new(Random, ws[0]);
+            for w in &ws[1..] {
+                d = d.with_selector(Best, *w);
+            }
+            if nested {
+                d = DynWeighted::new(d, 3).with_selector(Worst, 1);
+            }
+            let out = observe_select(&d, &pop, &mut TraceRng::stream(g.next()));
+            rep.eval();
+            rep.count(&format!("DynWeighted-usize-extremes:{}", out.kind()));
+            let bad = match &out {
+                SelOut::Panic(p) => Some(format!("panic: {p}")),
+                SelOut::Foreign => Some("not an element of the population".to_string()),
+                SelOut::Member(_) | SelOut::Err(_) => None,
+            };
+            if let Some(why) = bad {
+                rep.violation(format!("C06/DynWeighted/usize-weights-{}", aspect(&out)), || json!({"weights": ws.iter().map(|w| w.to_string()).collect::<Vec<_>>(), "nested": nested, "population_size": n, "why": why}));
+            }
+        }
+    }
 }
 
 fn large_population(g: &mut Xo, rep: &mut Report) {
@@ -390,6 +431,9 @@ pub fn run(args: &Args) -> i32 {
             }
             if r % 4 == 0 {
                 other_collections(&mut g, &mut rep);
+            }
+            if r % 16 == 0 {
+                dyn_weight_extremes(&mut g, &mut rep);
             }
         }
         rep
